@@ -40,6 +40,7 @@ type Pod struct {
 	FileMode         bool
 	FileText         string // configuration text currently rolled out to this pod's file
 	ReloadFailUntil  time.Time
+	StalledUntil     time.Time // its Prometheus does not get round to scraping (overloaded / paused)
 	EmptySince       *time.Time // harness' own knowledge of since when the pod scrapes nothing
 }
 
